@@ -153,7 +153,7 @@ fn ensure_file(path: &str, content: &[u8]) -> Option<()> {
 
 /// The files this op keeps on the machine (the generator's machine description lists the same
 /// table): a fixed-offset TZif file, or bytes that are not TZif for `None`.
-const CREATED: [(&str, Option<i32>); 14] = [
+const CREATED: [(&str, Option<i32>); 16] = [
     ("/tmp/c18z/p3", Some(3 * 3600 + 60)), ("/tmp/c18z/m7", Some(-7 * 3600 - 120)), ("/tmp/c18z/p11", Some(11 * 3600 + 180)),
     ("/tmp/c18z/junk", None),
     ("/usr/share/zoneinfo/c18z/a", Some(3600 + 240)),
@@ -162,6 +162,7 @@ const CREATED: [(&str, Option<i32>); 14] = [
     ("/usr/share/lib/zoneinfo/c18z/d", Some(-6 * 3600 - 540)),
     ("/usr/share/zoneinfo/c18z/e", Some(-8 * 3600 - 600)), ("/share/zoneinfo/c18z/e", Some(-8 * 3600 - 660)),
     ("/share/zoneinfo/c18z/j", None), ("/etc/zoneinfo/c18z/j", Some(9 * 3600 + 720)),
+    ("/tmp/c18z/k,1", Some(5 * 3600 + 780)), ("/usr/share/zoneinfo/c18z/l,m", Some(-2 * 3600 - 840)),
 ];
 
 /// One file whose zone has a transition, so that the two directions of a conversion differ:
